@@ -27,8 +27,15 @@ type fieldT struct {
 	ref      ref
 	number   int
 	oneof    int    // -1 = none; else index into msgT.oneofs
-	extendee string // for extension fields: full name of the extended message
+	extendee string // for extension fields: full name of the extended message (a descriptor option message), or
+	extOwn   string // the nested name of an extendable proto2 message of the SAME file (rendered fully qualified)
+	mapKey   string // != "": a map field `map<mapKey, scalar|ref> name = n;` (synthetic <Name>Entry nested message)
+	group    *msgT  // != nil: a proto2 group `label group <group.name> = n { … }`; name == lower(group.name),
+	// the declaration's comment belongs to the nested message (group.comment), the field has none
 }
+
+func (f *fieldT) isMap() bool   { return f.mapKey != "" }
+func (f *fieldT) isGroup() bool { return f.group != nil }
 
 type valueT struct {
 	name    string
@@ -60,6 +67,63 @@ type msgT struct {
 	enums       []enumT
 	msgs        []msgT
 	nestedFirst bool // render nested types before the fields
+	extRange    bool // proto2: declares `extensions 1000 to max;` (may be the extendee of extension fields)
+}
+
+// nestedItem is one entry of the message's nested_type list in DESCRIPTOR order: the compiler
+// appends nested messages, group messages and synthetic map-entry messages in source order.
+type nestedItem struct {
+	msg   *msgT // declared nested message or group body; nil for a map entry
+	field int   // index of the map / group field in msgT.fields; -1 for a declared nested message
+}
+
+// nestedItems mirrors the renderer's layout: nestedFirst puts the declared nested messages
+// before the fields (hence before the groups / map entries the fields give rise to).
+func (m *msgT) nestedItems() []nestedItem {
+	var syn, real []nestedItem
+	for i := range m.fields {
+		switch {
+		case m.fields[i].isGroup():
+			syn = append(syn, nestedItem{m.fields[i].group, i})
+		case m.fields[i].isMap():
+			syn = append(syn, nestedItem{nil, i})
+		}
+	}
+	for k := range m.msgs {
+		real = append(real, nestedItem{&m.msgs[k], -1})
+	}
+	if m.nestedFirst {
+		return append(real, syn...)
+	}
+	return append(syn, real...)
+}
+
+// nestedIndexOfField is the nested_type index of the group / map-entry message of field i.
+func (m *msgT) nestedIndexOfField(i int) int {
+	for j, it := range m.nestedItems() {
+		if it.field == i {
+			return j
+		}
+	}
+	return -1
+}
+
+// mapEntryName is protoc's MapEntryName: CamelCase of the field name + "Entry".
+func mapEntryName(field string) string {
+	var sb strings.Builder
+	up := true
+	for _, c := range field {
+		switch {
+		case c == '_':
+			up = true
+		case up:
+			sb.WriteString(strings.ToUpper(string(c)))
+			up = false
+		default:
+			sb.WriteRune(c)
+		}
+	}
+	return sb.String() + "Entry"
 }
 
 type rpcT struct {
@@ -131,7 +195,14 @@ func cloneLines(c []string) []string {
 	return append([]string{}, c...)
 }
 
-func cloneField(f fieldT) fieldT { f.comment = cloneLines(f.comment); return f }
+func cloneField(f fieldT) fieldT {
+	f.comment = cloneLines(f.comment)
+	if f.group != nil {
+		g := cloneMsg(*f.group)
+		f.group = &g
+	}
+	return f
+}
 
 func cloneFields(fs []fieldT) []fieldT {
 	out := make([]fieldT, len(fs))
@@ -233,11 +304,37 @@ func (s *ser) h(v string)    { s.toks = append(s.toks, hx.Enc(v)) }
 func (s *ser) field(f fieldT, proto3 bool, oneofIndex int) {
 	s.t("D")
 	s.h(f.name)
-	s.h(leadingText(f.comment))
+	if f.isGroup() {
+		s.h("") // the comment in front of a group declaration documents the nested message
+	} else {
+		s.h(leadingText(f.comment))
+	}
 	s.b(f.label == "required")
-	s.b(false)
-	s.b(proto3 && f.label == "optional" && f.extendee == "")
+	s.b(f.isGroup())
+	s.b(proto3 && f.label == "optional") // extensions too: no synthetic oneof, but proto3_optional is set
 	s.n(oneofIndex)
+}
+
+// mapEntry emits the synthetic nested message of a map field: no comment, no source location.
+func (s *ser) mapEntry(f fieldT) {
+	s.t("M")
+	s.h(mapEntryName(f.name))
+	s.h("")
+	s.b(true)
+	s.n(2)
+	for _, n := range []string{"key", "value"} {
+		s.t("D")
+		s.h(n)
+		s.h("")
+		s.b(false)
+		s.b(false)
+		s.b(false)
+		s.n(-1)
+	}
+	s.n(0)
+	s.n(0)
+	s.n(0)
+	s.n(0)
 }
 
 func (s *ser) enum(e enumT) {
@@ -291,9 +388,14 @@ func (s *ser) msg(m msgT, proto3 bool) {
 	for _, e := range m.enums {
 		s.enum(e)
 	}
-	s.n(len(m.msgs))
-	for _, c := range m.msgs {
-		s.msg(c, proto3)
+	items := m.nestedItems()
+	s.n(len(items))
+	for _, it := range items {
+		if it.msg != nil {
+			s.msg(*it.msg, proto3)
+		} else {
+			s.mapEntry(m.fields[it.field])
+		}
 	}
 }
 
@@ -413,10 +515,14 @@ func (r *renderer) comment(ind string, c []string, detached bool) {
 }
 
 func (r *renderer) typeName(f fieldT) string {
-	if f.scalar != "" {
-		return f.scalar
+	t := f.scalar
+	if t == "" {
+		t = "." + r.w.fullName(f.ref)
 	}
-	return "." + r.w.fullName(f.ref)
+	if f.isMap() {
+		return "map<" + f.mapKey + ", " + t + ">"
+	}
+	return t
 }
 
 func (r *renderer) field(ind, path string, f fieldT) {
@@ -430,6 +536,30 @@ func (r *renderer) field(ind, path string, f fieldT) {
 	r.tok(path+".1", f.name)
 	r.write(" = " + strconv.Itoa(f.number) + ";")
 	r.mark(path, sl, sc)
+	r.write("\n")
+}
+
+// group renders `label group Name = n { fields }`.  The compiler gives the field (path) and
+// the nested message (bodyPath) the SAME span, and both name locations the span of the Name
+// token; the leading comment is attached to the nested message only.
+func (r *renderer) group(ind, path, bodyPath string, f fieldT) {
+	g := f.group
+	r.comment(ind, g.comment, g.detached)
+	r.write(ind)
+	sl, sc := r.pos()
+	if f.label != "" {
+		r.write(f.label + " ")
+	}
+	r.write("group ")
+	nl, nc := r.pos()
+	r.write(g.name)
+	r.mark(path+".1", nl, nc)
+	r.mark(bodyPath+".1", nl, nc)
+	r.write(" = " + strconv.Itoa(f.number) + " {\n")
+	r.msgFields(ind, bodyPath, *g)
+	r.write(ind + "}")
+	r.mark(path, sl, sc)
+	r.mark(bodyPath, sl, sc)
 	r.write("\n")
 }
 
@@ -468,10 +598,17 @@ func (r *renderer) extendBlocks(ind string, exts []fieldT, pathOf func(i int) st
 	i := 0
 	for i < len(exts) {
 		j := i
-		for j < len(exts) && exts[j].extendee == exts[i].extendee && j-i < 2 {
+		for j < len(exts) && exts[j].extendee == exts[i].extendee && exts[j].extOwn == exts[i].extOwn && j-i < 2 {
 			j++
 		}
-		r.write(ind + "extend " + exts[i].extendee + " {\n")
+		extendee := exts[i].extendee
+		if exts[i].extOwn != "" {
+			extendee = "." + exts[i].extOwn
+			if r.f.pkg != "" {
+				extendee = "." + r.f.pkg + "." + exts[i].extOwn
+			}
+		}
+		r.write(ind + "extend " + extendee + " {\n")
 		for k := i; k < j; k++ {
 			r.field(ind+"  ", pathOf(k), exts[k])
 		}
@@ -480,12 +617,20 @@ func (r *renderer) extendBlocks(ind string, exts []fieldT, pathOf func(i int) st
 	}
 }
 
+func (r *renderer) msgField(ind, path string, m msgT, i int) {
+	if m.fields[i].isGroup() {
+		r.group(ind, pk(path, 2, i), pk(path, 3, m.nestedIndexOfField(i)), m.fields[i])
+		return
+	}
+	r.field(ind, pk(path, 2, i), m.fields[i])
+}
+
 func (r *renderer) msgFields(ind, path string, m msgT) {
 	i := 0
 	for i < len(m.fields) {
 		f := m.fields[i]
 		if f.oneof < 0 {
-			r.field(ind+"  ", pk(path, 2, i), f)
+			r.msgField(ind+"  ", path, m, i)
 			i++
 			continue
 		}
@@ -498,7 +643,7 @@ func (r *renderer) msgFields(ind, path string, m msgT) {
 		r.tok(op+".1", o.name)
 		r.write(" {\n")
 		for i < len(m.fields) && m.fields[i].oneof == f.oneof {
-			r.field(ind+"    ", pk(path, 2, i), m.fields[i])
+			r.msgField(ind+"    ", path, m, i)
 			i++
 		}
 		r.write(ind + "  }")
@@ -511,8 +656,10 @@ func (r *renderer) msgNested(ind, path string, m msgT) {
 	for i, e := range m.enums {
 		r.enum(ind+"  ", pk(path, 4, i), e)
 	}
-	for i, c := range m.msgs {
-		r.msg(ind+"  ", pk(path, 3, i), c)
+	for j, it := range m.nestedItems() {
+		if it.field < 0 {
+			r.msg(ind+"  ", pk(path, 3, j), *it.msg)
+		}
 	}
 }
 
@@ -529,6 +676,9 @@ func (r *renderer) msg(ind, path string, m msgT) {
 	} else {
 		r.msgFields(ind, path, m)
 		r.msgNested(ind, path, m)
+	}
+	if m.extRange {
+		r.write(ind + "  extensions 1000 to max;\n")
 	}
 	r.extendBlocks(ind+"  ", m.exts, func(i int) string { return pk(path, 6, i) })
 	r.write(ind + "}")
@@ -632,20 +782,95 @@ func render(w *wsT, f *fileT) (string, map[string]span) {
 	return r.sb.String(), r.spans
 }
 
-// spanIndex inverts a span table; a collision between two tracked paths is a harness bug.
-func spanIndex(spans map[string]span) (map[span]string, error) {
+// pathKind classifies a tracked source path by the element it belongs to ("field", "message",
+// "enum", "oneof", "service", "import", "file"): sub-locations (name, number, …) count as their element.
+func pathKind(p string) string {
+	var xs []int
+	if p != "" {
+		for _, t := range strings.Split(p, ".") {
+			n, _ := strconv.Atoi(t)
+			xs = append(xs, n)
+		}
+	}
+	kind := "file"
+	for i := 0; i+1 < len(xs); i += 2 {
+		switch kind {
+		case "file":
+			switch xs[i] {
+			case 4:
+				kind = "message"
+			case 5:
+				kind = "enum"
+			case 6:
+				kind = "service"
+			case 7:
+				kind = "field"
+			case 3:
+				kind = "import"
+			default:
+				return kind
+			}
+		case "message":
+			switch xs[i] {
+			case 2, 6:
+				kind = "field"
+			case 3:
+				kind = "message"
+			case 4:
+				kind = "enum"
+			case 8:
+				kind = "oneof"
+			default:
+				return kind
+			}
+		default:
+			return kind
+		}
+	}
+	return kind
+}
+
+// spanIndex inverts a span table.  Two tracked paths may share a span only when they belong to
+// elements of different kinds (a group: the field and its nested message, and their names);
+// any other collision is a harness bug.
+func spanIndex(spans map[string]span) (map[span][]string, error) {
 	keys := make([]string, 0, len(spans))
 	for k := range spans {
 		keys = append(keys, k)
 	}
 	sort.Strings(keys)
-	idx := map[span]string{}
+	idx := map[span][]string{}
 	for _, k := range keys {
 		s := spans[k]
-		if other, ok := idx[s]; ok {
-			return nil, fmt.Errorf("span collision between %s and %s at %v", other, k, s)
+		for _, other := range idx[s] {
+			if pathKind(other) == pathKind(k) {
+				return nil, fmt.Errorf("span collision between %s and %s at %v", other, k, s)
+			}
 		}
-		idx[s] = k
+		idx[s] = append(idx[s], k)
 	}
 	return idx, nil
+}
+
+// ruleElementKind: the kind of element a rule reports on, used only to tell apart tracked paths
+// that share a span.
+func ruleElementKind(rule string) string {
+	switch {
+	case strings.HasPrefix(rule, "FIELD_"), rule == "COMMENT_FIELD":
+		return "field"
+	case rule == "MESSAGE_PASCAL_CASE", rule == "COMMENT_MESSAGE":
+		return "message"
+	}
+	return ""
+}
+
+func resolveSpan(cands []string, rule string) string {
+	if want := ruleElementKind(rule); want != "" {
+		for _, c := range cands {
+			if pathKind(c) == want {
+				return c
+			}
+		}
+	}
+	return cands[0]
 }
